@@ -1,7 +1,7 @@
 (* Props/C15.v — symmetrisation and the symmetry test. Only statements, short proofs by the lemmas, Print Assumptions. *)
 From Coq Require Import List Arith Bool ZArith Permutation Ring.
-From PV Require Import Base.Index Base.Perm Base.Sum Model.Repr Model.C15Sym Model.C15Impl Proofs.C15Proofs Proofs.C15Orbit
-  Proofs.C15ImplProofs.
+From PV Require Import Base.Index Base.Perm Base.Sum Model.Repr Model.C15Sym Model.C15Impl Model.C15K Proofs.C15Proofs
+  Proofs.C15Orbit Proofs.C15ImplProofs Proofs.C15Old Proofs.C15K Proofs.C15KNorm Model.C08Kruskal.
 Import ListNotations.
 
 Section C15.
@@ -97,14 +97,96 @@ Theorem C15_sym_new : forall s G, (forall g, In g G -> okg (length s) g /\ group
   impl_sym_new v0 v1 vadd vmul vinv veqb s X G i = spec_sym v0 v1 vadd vmul vinv X G i.
 Proof. intros; eapply impl_sym_new_correct; eauto. Qed.
 
-(* OLD symmetrize (explicit average over all combinations of mode rearrangements + max-fix): NOT proved; the
-   transliteration impl_sym_old is compared with spec_sym exactly on every generated input *)
+(* ---- wave 3 ---- *)
+(* pyttb's OLD symmetrize (version != None: explicit average of X.permute(p) over the table sym_perms of all combinations
+   of within-group mode rearrangements, then the "max-fix" loop Y = max(Y, Y.permute(p))), for ANY max with
+   max a a = a: equals the spec average at every N-way subscript, for all pairwise disjoint groups of distinct modes *)
+Theorem C15_sym_old : forall (vmax : V -> V -> V), (forall a, vmax a a = a) ->
+  forall N G, groups_ok N G -> forall (X : idx -> V) i, length i = N ->
+  impl_sym_old v0 v1 vadd vmul vinv vmax N X G i = spec_sym v0 v1 vadd vmul vinv X G i.
+Proof. intros; eapply impl_sym_old_correct; eauto. Qed.
+
+(* the explicit average alone (before the max-fix) already is the spec average *)
+Theorem C15_sym_old_average : forall N G, groups_ok N G -> forall (X : idx -> V) i, length i = N ->
+  sym_old_avg v0 v1 vadd vmul vinv N X G i = spec_sym v0 v1 vadd vmul vinv X G i.
+Proof. intros; eapply old_avg_spec; eauto. Qed.
+
+(* the statement kept open in wave 2 (with its size and in-bounds premises), now a theorem *)
 Definition C15_sym_old_stmt : Prop :=
   forall (vmax : V -> V -> V), (forall a, vmax a a = a) ->
   forall s G, groups_ok (length s) G -> (forall g, In g G -> group_cubical s g = true) ->
   forall (X : idx -> V) i, inb s i = true ->
   impl_sym_old v0 v1 vadd vmul vinv vmax (length s) X G i = spec_sym v0 v1 vadd vmul vinv X G i.
+Theorem C15_sym_old_as_stated : C15_sym_old_stmt.
+Proof. intros vmax Hm s G HG _ X i Hi. eapply impl_sym_old_correct; eauto. now apply inb_length. Qed.
+
+(* "the two implementations of each dense operation agree with each other": NEW and OLD symmetrize *)
+Theorem C15_sym_versions_agree : forall (vmax : V -> V -> V), (forall a, vmax a a = a) ->
+  forall s G, groups_ok (length s) G -> (forall g, In g G -> group_cubical s g = true) ->
+  forall (X : idx -> V) i, inb s i = true ->
+  impl_sym_new v0 v1 vadd vmul vinv veqb s X G i = impl_sym_old v0 v1 vadd vmul vinv vmax (length s) X G i.
+Proof. intros; eapply sym_versions_agree; eauto. Qed.
+
+(* ---- wave 3: ktensor.symmetrize.  k15_core (Model/C15K.v) transliterates the body of ktensor.symmetrize after its
+   normalize("all") (sign alignment of every factor with factor 0 and weight toggles, average, odd-order weight repair);
+   [neg] is the oracle for the test "x < 0" ---- *)
+Section Kruskal.
+Variable neg : V -> bool.
+
+(* "symmetrising a Kruskal tensor returns a Kruskal tensor that is symmetric in all modes": for EVERY input the result
+   consists of N copies of one factor matrix, so the array it denotes is invariant under every rearrangement of the subscripts *)
+Theorem C15_ksym_identical : forall K1 A0 As, kfactors K1 = A0 :: As ->
+  exists w M, k15_core v0 v1 vadd vmul vopp vinv neg K1 = mkK w (repeat M (S (length As))).
+Proof. intros; eapply k15_core_identical; eauto. Qed.
+Theorem C15_ksym_symmetric : forall K1 i i', Permutation i i' ->
+  den_k v0 v1 vadd vmul (k15_core v0 v1 vadd vmul vopp vinv neg K1) i =
+  den_k v0 v1 vadd vmul (k15_core v0 v1 vadd vmul vopp vinv neg K1) i'.
+Proof. intros; eapply k15_core_symmetric; eauto. Qed.
+
+(* the oracle: a sum of squares is not negative; if minus a sum of squares is not negative either, every term is zero *)
+Hypothesis neg_sq : forall (h : nat -> V) n, neg (sum_n v0 vadd n (fun x => vmul (h x) (h x))) = false.
+Hypothesis neg_opp_sq : forall (h : nat -> V) n, neg (vopp (sum_n v0 vadd n (fun x => vmul (h x) (h x)))) = false ->
+  forall x, x < n -> h x = v0.
+
+(* "an already symmetric tensor keeps its value": if every factor is, column by column, one matrix B up to a sign +-1
+   (what normalize("all") makes of identical factors with weights of either sign, and of factors stored with scrambled
+   column signs), the denoted array is unchanged — all orders N >= 1, sizes, ranks, weights *)
+Theorem C15_ksym_keeps : forall (B : list (list V)) m R K1, kfactors K1 <> [] -> krank K1 = R ->
+  (forall A, In A (kfactors K1) -> signed_copy v0 v1 vmul vopp B m R A) ->
+  forall i, den_k v0 v1 vadd vmul (k15_core v0 v1 vadd vmul vopp vinv neg K1) i = den_k v0 v1 vadd vmul K1 i.
+Proof. intros; eapply k15_core_keeps; eauto. Qed.
+End Kruskal.
 End C15.
+
+(* ---- wave 3: ktensor.symmetrize END TO END on a Kruskal tensor with identical factors: symmetrize = the body k15_core
+   after normalize("all") (k_normalize of Model/C08Kruskal.v, the model proved value-preserving in C08).  Oracles as in C08
+   (norm positive on non-zero columns, N-th root on the non-negative values, sort permutation, sign test) plus: a sum of
+   squares is not negative and vanishes only termwise.  "An already symmetric tensor keeps its value": any size, rank,
+   weights of either sign, order N = S n >= 1 *)
+Section C15K.
+Variable V : Type.
+Variables (v0 v1 : V) (vadd vmul vsub : V -> V -> V) (vopp vinv : V -> V).
+Hypothesis Vring : ring_theory v0 v1 vadd vmul vsub vopp (@eq V).
+Variables (nrm : list V -> V) (pos neg : V -> bool) (root : V -> V) (srt : list V -> list nat).
+Hypothesis vinv_r : forall x, x <> v0 -> vmul x (vinv x) = v1.
+Hypothesis vinv_l : forall x, x <> v0 -> vmul (vinv x) x = v1.
+Hypothesis char0 : forall n, n <> 0 -> of_nat v0 v1 vadd n <> v0.
+Hypothesis pos_nz : forall x, pos x = true -> x <> v0.
+Hypothesis nrm_pos : forall l, pos (nrm l) = false -> Forall (fun y => y = v0) l.
+Hypothesis srt_perm : forall l, is_perm (srt l) (length l).
+Hypothesis neg_opp : forall x, neg x = true -> neg (vopp x) = false.
+Hypothesis neg_sq : forall (h : nat -> V) n, neg (sum_n v0 vadd n (fun x => vmul (h x) (h x))) = false.
+Hypothesis neg_opp_sq : forall (h : nat -> V) n, neg (vopp (sum_n v0 vadd n (fun x => vmul (h x) (h x)))) = false ->
+  forall x, x < n -> h x = v0.
+
+Theorem C15_ksym_identical_input_keeps : forall (w : list V) (A : list (list V)) n,
+  (forall x, neg x = false -> vpow v1 vmul (root x) (S n) = x) ->
+  forall i,
+  den_k v0 v1 vadd vmul (k15_core v0 v1 vadd vmul vopp vinv neg
+     (k_normalize v0 v1 vmul vopp vinv nrm pos neg root srt WAll false None (mkK w (repeat A (S n))))) i =
+  den_k v0 v1 vadd vmul (mkK w (repeat A (S n))) i.
+Proof. intros; eapply ksymmetrize_identical_keeps; eauto. Qed.
+End C15K.
 
 Print Assumptions C15_sym_spec_terms.
 Print Assumptions C15_adjacent_transpositions_suffice.
@@ -120,6 +202,14 @@ Print Assumptions C15_issym_exact.
 Print Assumptions C15_issym_new.
 Print Assumptions C15_issym_old.
 Print Assumptions C15_sym_new.
+Print Assumptions C15_sym_old.
+Print Assumptions C15_sym_old_average.
+Print Assumptions C15_sym_old_as_stated.
+Print Assumptions C15_sym_versions_agree.
+Print Assumptions C15_ksym_identical.
+Print Assumptions C15_ksym_symmetric.
+Print Assumptions C15_ksym_keeps.
+Print Assumptions C15_ksym_identical_input_keeps.
 
 (* non-vacuity: a non-symmetric 2x2 matrix, one group [0;1] over Z-valued functions is not available without division;
    the list machinery on a concrete instance *)
@@ -137,4 +227,35 @@ Example C15_example_new_old_spec :
   Qc_eq_bool (q_sym exT [[1; 2]] [1; 0; 2]) (Q2Qc (10 # 1)) = true /\ Qc_eq_bool (q_sym exT [[1; 2]] [1; 2; 0]) (Q2Qc (10 # 1)) = true /\
   Qc_eq_bool (qden exT [1; 0; 2]) (Q2Qc (14 # 1)) = true /\ Qc_eq_bool (qden exT [1; 2; 0]) (Q2Qc (6 # 1)) = true /\
   q_issym (tabulate [2; 3; 3] (q_sym exT [[1; 2]])) [[1; 2]] = true.
+Proof. vm_compute. repeat split; reflexivity. Qed.
+
+(* non-vacuity of the wave-3 theorem on OLD symmetrize: two groups [[0;1];[2;3]] of a NON-symmetric 2x2x2x2 tensor — the table
+   sym_perms has the four combinations, and the transliteration (explicit average + max-fix) equals the spec *)
+Definition exT4 : dense Qc := mkDense [2; 2; 2; 2] (map (fun z => Q2Qc (z # 1)) [1; 2; 3; 4; 5; 6; 7; 8; 9; 10; 11; 12; 13; 14; 15; 17]%Z).
+Example C15_example_old_two_groups :
+  sym_perms 4 [[0; 1]; [2; 3]] = [[0; 1; 2; 3]; [1; 0; 2; 3]; [0; 1; 3; 2]; [1; 0; 3; 2]] /\
+  q_issym exT4 [[0; 1]; [2; 3]] = false /\ q_impls_agree exT4 [[0; 1]; [2; 3]] = true /\
+  Qc_eq_bool (q_sym exT4 [[0; 1]; [2; 3]] [1; 0; 0; 1]) (Q2Qc (17 # 2)) = true.
+Proof. vm_compute. repeat split; reflexivity. Qed.
+
+(* the same over the rationals with the EXACT sign test: the oracle hypotheses of C15_ksym_keeps are theorems there
+   (a sum of rational squares is not negative and vanishes only termwise), so nothing is assumed *)
+Theorem C15_ksym_keeps_rational : forall (B : list (list Qc)) m R (K1 : ktensor Qc), kfactors K1 <> [] -> krank K1 = R ->
+  (forall A, In A (kfactors K1) -> signed_copy q0 q1 Qcmult Qcopp B m R A) ->
+  forall i, qden_k (q_k15_core K1) i = qden_k K1 i.
+Proof. exact q_k15_core_keeps. Qed.
+Print Assumptions C15_ksym_keeps_rational.
+
+(* non-vacuity of the Kruskal theorems: order 3, rank 2, factors B.diag(1,-1), B.diag(-1,-1), B with B = [[1 2];[3 -1]]
+   (not identical: the signs are scrambled), weights (2, -3): every factor is a signed copy of B, the model's result has three
+   identical factors and denotes the same (non-constant) array *)
+From PV Require Import Model.C08Inst.
+Definition exK : ktensor Qc :=
+  let q z := Q2Qc (z # 1) in
+  mkK [q 2; q (-3)]%Z [[[q 1; q (-2)]; [q 3; q 1]]%Z; [[q (-1); q (-2)]; [q (-3); q 1]]%Z; [[q 1; q 2]; [q 3; q (-1)]]%Z].
+Example C15_example_ksym :
+  q_k15_signed_copies exK = true /\ q_mats_identical (kfactors exK) = false /\
+  q_mats_identical (kfactors (q_k15_core exK)) = true /\ length (kfactors (q_k15_core exK)) = 3 /\
+  qk_den_eqb [2; 2; 2] exK (q_k15_core exK) = true /\
+  Qc_eq_bool (qden_k exK [0; 1; 0]) (Q2Qc (6 # 1)) = true /\ Qc_eq_bool (qden_k exK [1; 1; 1]) (Q2Qc (-51 # 1)) = true.
 Proof. vm_compute. repeat split; reflexivity. Qed.
